@@ -108,8 +108,27 @@ def run_unit(world, unit, timeout_ms=10000, budget_s=300, canary=False):
         if unit.post is not None:
             unit.post(it, ctx, out)
 
+    # hard wall-clock limit (the cooperative deadline is only looked at between paths: one path through a long symbolic loop
+    # could run on for a long time) - expiry is "undecided (budget)", like the cooperative one
+    import signal
+
+    class _WallClock(BaseException):
+        pass
+
+    def _on_alarm(sig, frm):
+        raise _WallClock()
+    armed = False
+    try:
+        old_handler = signal.signal(signal.SIGALRM, _on_alarm)
+        signal.setitimer(signal.ITIMER_REAL, budget_s + 20, 5)
+        armed = True
+    except ValueError:      # not the main thread of its process: only the cooperative deadline applies
+        pass
     try:
         explore(run, res, timeout_ms=timeout_ms, deadline=t0 + budget_s, prefer=unit.config.get('prefer', 'z3'))
+    except _WallClock:
+        res.status = "budget"
+        res.errors.append(f"{unit.name}: time budget exhausted (wall clock, inside one path)")
     except OutOfSubset as e:
         res.status = "out-of-subset"
         res.errors.append(f"{unit.name}: out-of-subset: {e}")
@@ -122,6 +141,9 @@ def run_unit(world, unit, timeout_ms=10000, budget_s=300, canary=False):
         res.status = "crash"
         res.errors.append(f"{unit.name}: checker crash:\n{traceback.format_exc()}")
     finally:
+        if armed:
+            signal.setitimer(signal.ITIMER_REAL, 0)
+            signal.signal(signal.SIGALRM, old_handler)
         world.hooks.clear()
         world.elem_kinds.clear()
         world.elem_kinds.update(saved_kinds)
